@@ -35,6 +35,7 @@ type reloadManager struct {
 	lastRetirementCancel         context.CancelFunc
 	pendingStagedHandoff         *stagedReloadHandoff
 	pendingRetirementDone        <-chan struct{}
+	announcedRetirementDone      chan struct{}
 	pendingReloadRequestedAt     time.Time
 	pendingReloadRequestedAtMono uint64
 }
@@ -140,6 +141,23 @@ func (m *reloadManager) clearPendingRetirement() {
 	}
 	m.mu.Lock()
 	m.pendingRetirementDone = nil
+	m.announcedRetirementDone = nil
+	m.mu.Unlock()
+}
+
+// announcePendingRetirement publishes the completion channel of a retirement
+// that startControlPlaneRetirement is about to begin. The reload worker calls
+// it before beginHandoff wakes the signal loop: otherwise the loop can finish
+// the reload (and release the reload gate) before the retirement of the
+// previous generation has been published, i.e. without waiting for it.
+func (m *reloadManager) announcePendingRetirement() {
+	if m == nil {
+		return
+	}
+	done := make(chan struct{})
+	m.mu.Lock()
+	m.announcedRetirementDone = done
+	m.pendingRetirementDone = done
 	m.mu.Unlock()
 }
 
@@ -283,13 +301,19 @@ func (m *reloadManager) startControlPlaneRetirement(
 	if log != nil {
 		log.Warnln("[Reload] Retiring old control plane")
 	}
-	retirementDone := make(chan struct{})
 	// lastRetirementMu only serializes cancellation/replacement of the previous
 	// retirement goroutine. The timing metadata below belongs to the reload
 	// manager state itself, so it is read under m.mu instead. This split is safe
 	// because reload requests are handled by a single worker goroutine.
 	m.mu.Lock()
-	m.pendingRetirementDone = retirementDone
+	// Reuse the channel announced before the hand-off (the signal loop may
+	// already be waiting on it); otherwise publish a fresh one.
+	retirementDone := m.announcedRetirementDone
+	m.announcedRetirementDone = nil
+	if retirementDone == nil {
+		retirementDone = make(chan struct{})
+		m.pendingRetirementDone = retirementDone
+	}
 	drainBudget := remainingReloadRetirementBudget(m.pendingReloadRequestedAt, reloadTotalSwitchBudget)
 	staleBeforeNs := m.pendingReloadRequestedAtMono
 	m.mu.Unlock()
